@@ -19,6 +19,9 @@ EXPLANATION = (
     "reported: it skips the segment after an arc that is replaced by nothing) and replace each arc by slice assignment "
     "(which re-validates every connection), with the slice count from |sweep| / (full turn x error). Not decided: the 1e-3 "
     "/ 1e-2 distance bounds themselves (numeric)."
+    ' R19.5: both converters take their first parameter from get_start_t() = t_at_point(point_at_angle(start'
+    " angle)); C05's R05.5 (half-turn correction exactly for |angle| mod 1 turn in (1/4, 3/4], boundaries"
+    ' decided by the sign of tan() at the float quarter turns) therefore runs here as well.'
 )
 TECHNIQUE = (
     "static analysis (no execution): loop-carried continuity and end pinning; control-point formulas as exact canonical forms over opaque trig atoms; structural rules for path-level replacement"
@@ -27,7 +30,7 @@ ASSUMPTIONS = [
     "The cubic alpha of L. Maisonobe, 'Drawing an elliptical arc using polylines, quadratic or cubic Bezier curves' (2003) is the reference for cubics.",
     "For quadratics only the geometric form of the control point is decided; the particular slice-only factor is an accuracy choice (numeric clause).",
 ]
-FLOORS = {"R19.1": 10, "R19.2": 2, "R19.3": 10, "R19.4": 4}
+FLOORS = {"R19.1": 10, "R19.2": 2, "R19.3": 10, "R19.4": 4, "R19.5": 2}
 
 SEED = {"self.rx": "RX", "self.ry": "RY", "self.get_rotation()": "TH", "self.center.x": "CX", "self.center.y": "CY", "self.get_start_t()": "T0"}
 
@@ -37,9 +40,19 @@ def run(ctx):
     ctx.rule("R19.2", "zero extent yields nothing")
     ctx.rule("R19.3", "slice, ellipse point, derivative, alpha and control-point formulas")
     ctx.rule("R19.4", "path-level replacement keeps the rest of the path connected")
+    ctx.rule("R19.5", "the first slice starts at the arc's start parameter: polar angle to ellipse parameter (obligations shared with C05 R05.5)")
     for kind in ("cubic", "quad"):
         generator(ctx, kind)
     path_level(ctx)
+    # both converters take their first parameter from get_start_t() = t_at_point(point_at_angle(start angle)); with the wrong
+    # parameter the chain still starts and ends at the arc's end points but every joint in between is on the other half of
+    # the ellipse
+    st = ctx.fn("Arc.get_start_t", "R19.5")
+    reaches = {c.func.attr for c in ast.walk(st) if isinstance(c, ast.Call) and isinstance(c.func, ast.Attribute)}
+    ctx.need(reaches & {"point_at_angle", "t_at_point"}, "R19.5", "Arc.get_start_t no longer goes through point_at_angle / t_at_point")
+    from . import c05
+
+    c05.polar_to_parameter(ctx.renamed("R19.5"))
 
 
 def generator(ctx, kind):
